@@ -228,8 +228,7 @@ Lemma tpl_ctor_shape E tv ap ps n t :
   tpl_ctor E tv ap ps = (Ok n, t) -> exists v, n = NTpl v tv ap /\ (v <> None -> (tv || env_on (e_tv E)) = true).
 Proof.
   unfold tpl_ctor. destruct (negb (check_params tpl_accepted [k_template] ps)); [discriminate|].
-  destruct (lookup k_template ps) as [[| | |s| |]|]; try discriminate.
-  destruct (negb (is_none k_path ps)); [discriminate|].
+  intros E0. apply rbind_ok in E0. destruct E0 as (src & t0 & t0' & _ & E0 & _). revert E0.
   destruct (lookup k_vars ps) as [[| | |p| |]|]; try discriminate.
   - intros E0. inversion E0. exists None. split; [reflexivity | congruence].
   - intros E0. apply rbind_ok in E0. destruct E0 as (u & t1 & t2 & E1 & E0 & _). inversion E0.
@@ -475,8 +474,7 @@ Qed.
 Lemma tpl_ctor_trace E tv ap ps : Forall (exec_ok E tv ap) (snd (tpl_ctor E tv ap ps)).
 Proof.
   unfold tpl_ctor. destruct (negb (check_params tpl_accepted [k_template] ps)); [constructor|].
-  destruct (lookup k_template ps) as [[| | |s| |]|]; try constructor.
-  destruct (negb (is_none k_path ps)); [constructor|].
+  apply rbind_trace_Forall; [constructor|]. intros _.
   destruct (lookup k_vars ps) as [[| | |p| |]|]; try constructor.
   apply rbind_trace_Forall; [apply tpl_init_trace_ok | intros; constructor].
 Qed.
@@ -789,7 +787,7 @@ Lemma tpl_ctor_G E tv ap key h ps :
   str_eqb key k_template = false -> str_eqb key k_path = false -> str_eqb key k_vars = false ->
   tpl_ctor E tv ap (map (G key h) ps) = tpl_ctor E tv ap ps.
 Proof.
-  intros H1 H2 H3. unfold tpl_ctor, is_none. rewrite check_params_G.
+  intros H1 H2 H3. unfold tpl_ctor, tpl_source. rewrite check_params_G.
   rewrite !(lookup_G_other key h k_template), !(lookup_G_other key h k_path), !(lookup_G_other key h k_vars) by assumption.
   reflexivity.
 Qed.
@@ -1001,9 +999,19 @@ Proof. unfold same_modulo_optin_keys. intros H. rewrite <- (doc_irrelevant E d a
 Lemma load_yaml_eq E d a src :
   load_yaml E d a src = load_dict E d {| a_ext := a_ext a; a_tv := a_tv a; a_ap := yaml_paths E (a_ap a) src |}.
 Proof. reflexivity. Qed.
-Lemma load_resolver_eq E d spec :
-  load_resolver E d spec = load_dict E d {| a_ext := false; a_tv := false; a_ap := Some [render (removelast (real E spec))] |}.
+Lemma load_resolver_snd E d spec :
+  snd (load_resolver E d spec) =
+  snd (load_dict E d {| a_ext := false; a_tv := false; a_ap := Some [render (removelast (real E spec))] |}).
 Proof. reflexivity. Qed.
+Lemma load_resolver_ok E d spec t tr :
+  load_resolver E d spec = (Ok t, tr) ->
+  load_dict E d {| a_ext := false; a_tv := false; a_ap := Some [render (removelast (real E spec))] |} = (Ok t, tr).
+Proof.
+  unfold load_resolver, oserror_to_notfound, load_yaml. simpl.
+  destruct (load_dict E d _) as [[t'|c|c] tr'] eqn:EL; simpl; intros H; try discriminate.
+  - exact H.
+  - destruct (c =? C_NotFound); discriminate.
+Qed.
 
 (* a pipeline resolved from a file name never performs any effect unless the environment grants it, and then a
    vars file is executed only below the directory of the pipeline file *)
@@ -1014,7 +1022,7 @@ Theorem resolver_contained E d spec :
                              is_prefix (removelast (real E spec)) (real E p))
          (snd (load_resolver E d spec)).
 Proof.
-  intros W I. rewrite load_resolver_eq. eapply Forall_impl; [|apply load_trace_gated].
+  intros W I. rewrite load_resolver_snd. eapply Forall_impl; [|apply load_trace_gated].
   intros e (p & -> & G & PA). cbn [a_tv a_ap orb] in G, PA. exists p. split; [reflexivity|]. split; [exact G|].
   apply path_containment in PA; [|exact W]. destruct PA as (b & [<-|[]] & Hp).
   rewrite I in Hp; [exact Hp|].
@@ -1097,10 +1105,10 @@ Theorem model_satisfies_spec E d a o tr1 phs :
   wf_real (real E) -> load_dict E d a = (o, tr1) ->
   let ot := match o with Ok t => Some (obs_tree t) | _ => None end in
   let tr2 := match o with Ok t => snd (convert E t phs) | _ => [] end in
-  spec_ok a (env_grants (e_ext E)) (env_grants (e_tv E)) (real E) ot (tr1 ++ tr2) false = true.
+  spec_ok a (env_grants (e_ext E)) (env_grants (e_tv E)) (real E) ot (tr1 ++ tr2) false false = true.
 Proof.
   intros W EL. cbv zeta. unfold spec_ok. rewrite <- !env_on_documented.
-  apply andb_true_iff. split; [apply andb_true_iff; split|reflexivity].
+  apply andb_true_iff. split; [|reflexivity]. apply andb_true_iff. split; [apply andb_true_iff; split|reflexivity].
   - rewrite forallb_app. apply andb_true_iff. split.
     + pose proof (load_trace_gated E d a) as T. rewrite EL in T. simpl in T.
       apply forallb_forall. intros e He. rewrite Forall_forall in T. destruct (T e He) as (p & -> & G & PA).
@@ -1127,7 +1135,7 @@ Qed.
 (* the literal reading "every item carries the caller's bits" is false for nested external-source items when the
    caller opts in: NestedProcessingTransformation builds its items without the opt-in *)
 Definition ex_env : env :=
-  {| e_ext := None; e_tv := None; real := fun s => [s]; loadable := fun _ => true; fetch_ok := fun _ => true |}.
+  {| e_ext := None; e_tv := None; real := fun s => [s]; loadable := fun _ => true; fetch_ok := fun _ => true; tpl_file := fun _ _ => None |}.
 Definition ex_nested_doc : yv :=
   YMap [(k_transformations,
          YList [YMap [(k_type, YStr t_nest);
@@ -1156,8 +1164,33 @@ Corollary caps_resolver E d spec t tr :
   Forall (fun f => f = false) (tree_ext_flags (obs_tree t)) /\
   Forall (tpl_is E false (Some [render (removelast (real E spec))])) (tree_tpl_caps (obs_tree t)).
 Proof.
-  rewrite load_resolver_eq. intros EL. split.
+  intros EL. apply load_resolver_ok in EL. split.
   - pose proof (all_flags_le E d _ t tr EL) as L. eapply Forall_impl; [|exact L].
     intros f Hf. destruct f; [discriminate (Hf eq_refl) | reflexivity].
   - pose proof (caps_from_caller E d _ t tr EL) as (_ & _ & _ & C4). exact C4.
+Qed.
+
+
+(* ---------------------------------------------------------------------------------------- *)
+(* rendering of templates (post-processing and finalizers) is confined to the sandbox: it adds no effect, and a
+   template that reaches for an underscore attribute is refused instead of evaluated *)
+Theorem render_no_effect E d t phs : snd (convert_full E d t phs) = snd (convert E t phs).
+Proof.
+  unfold convert_full. destruct (convert E t phs) as [[u|c|c] tr]; simpl; try reflexivity.
+  destruct (doc_unsafe E d); simpl; rewrite app_nil_r; reflexivity.
+Qed.
+
+Theorem unsafe_template_refused E d t phs :
+  doc_unsafe E d = true -> fst (convert E t phs) = Ok tt -> fst (convert_full E d t phs) = Crash C_Sandbox.
+Proof.
+  intros U C. unfold convert_full. destruct (convert E t phs) as [[u|c|c] tr]; simpl in *; try discriminate.
+  rewrite U. reflexivity.
+Qed.
+
+Theorem no_effect_default_full E d :
+  env_on (e_ext E) = false -> env_on (e_tv E) = false ->
+  forall t, fst (load_dict E d default_args) = Ok t -> forall phs, snd (convert_full E d t phs) = [].
+Proof.
+  intros Hx Ht t EL phs. rewrite render_no_effect.
+  destruct (no_effect_default E d Hx Ht) as [_ H]. destruct (H t EL) as (_ & _ & H3). apply H3.
 Qed.
